@@ -4,15 +4,13 @@ from .mir import callee, callee_matches, Prov
 from .ctx import where_of
 
 EXPLANATION = (
-    "Import-set evaluation is a structural recursion in which each operator is a pure map/filter over the "
-    "recursive result, so per-operator facts compose to the algebra.  Decided from MIR: the parser maps the "
-    "keywords only/except/prefix/rename to their constructors with (sub-set, payload) in the right fields; "
-    "`only` keeps and `except` drops exactly the listed names (polarity of the filter closures, membership "
-    "tested on the binding's *name* against the set built from the operator's own identifier list); "
-    "`prefix` formats prefix-then-name; `rename` builds one map old->new and performs one lookup keyed by the "
-    "incoming name per binding (simultaneous, not sequential); every operator passes the bound value through "
-    "unchanged; eval_import unions all sets into one map and defines each entry in the target environment; "
-    "hash-iteration order reaches only order-insensitive sinks.")
+    'Import-set algebra table by abstract interpretation of eval_import_set: 41 import sets (each of only / '
+    'except / prefix / rename alone and every nesting of two) over a library exporting a, b, c yield exactly the '
+    "names the algebra yields, each bound to the library's own value (identity of opaque tokens); (union) "
+    'eval_import with two sets defines the union in the target environment, a failing set defines nothing; '
+    '(keywords) the parser maps (only ...) (except ...) (prefix ...) (rename ...) on datum skeletons to their '
+    'constructors with sub-set and payload in the right fields; (deterministic) census of hash-map iterations: '
+    'order reaches only order-insensitive sinks.')
 NOT_DECIDED = ("equality of the resulting binding set with the algebra over all nested terms (only the per-operator "
                "facts that compose to it); behaviour on inadmissible terms (colliding renames).")
 
